@@ -655,8 +655,13 @@ void DocumentBuilder::prechart_set(const bool pch) { currentTemplate->has_precha
 
 void DocumentBuilder::decl_dynamic_template(const std::string& name)
 {
-    // Should be null, but error recovery can result in proc_end not being called
-    currentTemplate = nullptr;
+    // Dynamic templates are global: inside a template the declaration would leave the rest of
+    // that template (locations, edges) without a current template.
+    if (currentTemplate != nullptr) {
+        handle_error(TypeException{"Dynamic templates must be declared in the global declarations"});
+        params = frame_t::create();  // reset params
+        return;
+    }
     /* check if name already exists */
     if (frames.top().contains(name)) {
         handle_error(DuplicateDefinitionError(name));
